@@ -350,6 +350,21 @@ func boolAtomOrConst(in *Interp, name string, a, b Val, f func(x, y string) bool
 			return kBool(true)
 		}
 	}
+	// a string is a prefix of itself with a suffix trimmed
+	if name == "strings.HasPrefix" {
+		if sa, ok := a.(SymStr); ok {
+			if sb, ok := b.(SymStr); ok {
+				if x, ok := trimmedOperand(sb.Key); ok {
+					if x == sa.Key {
+						return kBool(true)
+					}
+					if eq, known := in.ch.strs.known("s:"+sa.Key, "s:"+x); known && eq {
+						return kBool(true)
+					}
+				}
+			}
+		}
+	}
 	return LazyBool{name + "(" + keyOf(a) + "," + keyOf(b) + ")"}
 }
 
